@@ -41,7 +41,8 @@ FLOORS = {
 }
 SHARD_TIMEOUT = {"quick": 600, "thorough": 3000}
 
-STR = [b'"a"', b'"x y"', b'"\xc3\xa9"', b'"q\\"q"', b'""']
+STR = [b'"a"', b'"x y"', b'"\xc3\xa9"', b'"q\\"q"', b'""', b"text:\nml \xc3\xa9\n..dot\n."]
+QSTR = STR[:5]  # quoted only: multi-line items inside [...] are C01's known finding
 NUM = [b"1", b"10K", b"42"]
 EXTS = ["fileinto", "imap4flags", "vacation", "copy"]
 
@@ -121,7 +122,7 @@ def spec_entry(d):
 def kind_of(tok):
     if tok == b"[":
         return "list"
-    if tok[:1] == b'"':
+    if tok[:1] == b'"' or tok.startswith(b"text:"):
         return "string"
     if tok[:1] == b":":
         return "tag"
@@ -227,8 +228,8 @@ def param_tokens(p, rng, good=True):
     if t == "number":
         return [rng.choice(NUM)]
     if t == "stringlist":
-        return [b"[", rng.choice(STR), b",", rng.choice(STR), b"]"]
-    return rng.choice([[rng.choice(STR)], [b"[", rng.choice(STR), b"]"]])
+        return [b"[", rng.choice(QSTR), b",", rng.choice(QSTR), b"]"]
+    return rng.choice([[rng.choice(STR)], [b"[", rng.choice(QSTR), b"]"]])
 
 
 def pos_tokens(p, rng):
@@ -237,7 +238,7 @@ def pos_tokens(p, rng):
         return [rng.choice(NUM)]
     if t == ["string"]:
         return [rng.choice(STR)]
-    return rng.choice([[rng.choice(STR)], [b"[", rng.choice(STR), b",", rng.choice(STR), b"]"]])
+    return rng.choice([[rng.choice(STR)], [b"[", rng.choice(QSTR), b",", rng.choice(QSTR), b"]"]])
 
 
 def valid_uses(d, rng, cap=40):
